@@ -165,7 +165,7 @@ def _fit_bgl(case, conf, seed, d):
                             grid_size=gsize, grid_limit=glimit, constraint_weight=cw)
         gs.fit(d["X"], np.array(d["y"], dtype=float), sensitive_features=d["g"])
     except Exception as e:
-        return [({"api": "GridSearch.fit", "kind": "exception", "exc": type(e).__name__, **sig0}, f"fit raised {e!r}", detail)], [], True
+        return [({"api": "GridSearch.fit", "kind": "exception", "exc": type(e).__name__, "constant_targets": len(set(d["y"])) == 1, **sig0}, f"fit raised {e!r}", detail)], [], True
     lv = gs.lambda_vecs_
     cols = [tuple(np.round(lv[c].values, 12)) for c in lv.columns]
     if len(cols) != gsize or len(set(cols)) != len(cols):
